@@ -215,6 +215,7 @@ func (o *Operator) HandleDeploy(ctx context.Context, req *workerpb.DeployOperato
 	}, ckptHandles)
 	o.stateStore = NewKeyedStateStore(o.db, o.keySpace)
 	o.timerRegistry = NewTimerRegistry(NewTimerStore(o.db, o.keySpace, o.keyGroupRange, size.GB), req.SourceRunnerIds)
+	o.verifRetune(req)
 
 	o.sourceRunners = newUpstreams(req.SourceRunnerIds)
 	o.sink = sink
